@@ -225,6 +225,12 @@ def run(ctx):
         specs.append(dict(D=3, depth=1, cls="ConvBlock", input=S1[0], output=S1[1], use_group_norm=True, activation="relu", use_bias="auto"))
     # the 3-D U-Net exercises the up-sampling bank with tensor order >= 1 under rotations mixing all three axes
     specs.append(dict(D=3, depth=1, cls="UNet", input=S1[0], output=S1[1], use_group_norm=False, activation="relu", use_bias="auto", num_downsamples=1, num_conv=1, square=False))
+    # banks with an absent filter type (no (0,1) filter exists for 3^D filters): the model must stay equivariant
+    for cls in ("ResNet", "ConvBlock") + (("UNet", "DilResNet") if th else ()):
+        sm = dict(base, cls=cls, input=S2[0], output=S2[1], use_group_norm=True, activation="relu", use_bias="auto", missing=[(0, 1)])
+        if cls == "UNet":
+            sm.update(num_downsamples=1, num_conv=1)
+        specs.append(sm)
     jobs = [(ctx.repo, s) for s in specs]
     by = {}
     for job, r in ctx.pairs(worker, jobs, chunk=1):
